@@ -53,9 +53,14 @@ ASSUMPTIONS = [
 ]
 
 SUITS = 'cdhs'
+# every member of pokerkit.RankOrder (the "+" and "-" forms depend on it)
 ORDERS = {
     'STANDARD': '23456789TJQKA',
     'SHORT_DECK_HOLDEM': '6789TJQKA',
+    'REGULAR': 'A23456789TJQK',
+    'EIGHT_OR_BETTER_LOW': 'A2345678',
+    'ROYAL_POKER': 'TJQKA',
+    'KUHN_POKER': 'JQK',
 }
 
 
